@@ -113,7 +113,7 @@ func init() {
 			}
 		}})
 
-	register(&Rule{ID: "C06.scale", Props: []string{"C06", "C03"}, Floor: 6,
+	register(&Rule{ID: "C06.scale", Props: []string{"C06", "C03", "C08", "C07"}, Floor: 6,
 		Doc: "SlashValidator: each share and the asset's share total are reduced by the same share*fraction; results persisted",
 		Run: func(e *Engine, r *RuleRun) {
 			fn := r.Need("keeper.Keeper.SlashValidator")
